@@ -25,10 +25,11 @@ OPS = [
     ('directlyProvides', 0, (2,)), ('directlyProvides', 0, (3, 0)), ('alsoProvides', 0, 3),
     ('directlyProvides', 1, (2,)), ('directlyProvides', 0, (2, ('impl', 2))), ('noLongerProvides', 0, 2),
     ('directlyProvides', 0, ()), ('directlyProvides', 1, (1,)),
+    ('classImplements', 3, 0), ('classImplementsOnly', 3, 2),
 ]
 NOPS = len(OPS)
 CLS_OF_OBJ = {0: 1, 1: 2}     # a = K1(), b = K2()
-SUBCLASSES = {0: (0, 1, 2), 1: (1,), 2: (2,)}
+SUBCLASSES = {0: (0, 1, 2), 1: (1,), 2: (2,), 3: (3,)}
 
 
 def valid(ops):
@@ -66,9 +67,21 @@ class World:
             cls = type('K%d' % i, b, {'__module__': name, 'method_' + MARK: lambda self: None})
             setattr(mod, cls.__name__, cls)
             self.K.append(cls)
+        # K3 rejects attribute assignment, like a builtin / extension type: its specification lives in
+        # BuiltinImplementationSpecifications instead of K3.__implemented__
+        class Frozen(type):
+            def __setattr__(cls, key, value):
+                raise TypeError("cannot set %r attribute of immutable type" % key)
+        Frozen.__module__, Frozen.__qualname__ = name, 'Frozen'     # importable, so that class declarations can name it
+        mod.Frozen = Frozen
+        K3 = Frozen('K3', (object,), {'__module__': name})
+        mod.K3 = K3
+        self.K.append(K3)
         self.obj = [self.K[1](), self.K[2]()]
 
     def close(self):
+        from zope.interface.declarations import BuiltinImplementationSpecifications
+        BuiltinImplementationSpecifications.pop(self.K[3], None)
         sys.modules.pop(self.modname, None)
 
     def arg(self, a):
@@ -215,8 +228,8 @@ HARNESSES = [
             tiers=dict(quick=dict(budget_s=150, parts=16, params=dict(L=3)),
                        thorough=dict(budget_s=3000, parts=16, params=dict(L=4), impls=('py',))),
             encoded=_ENC,
-            bounds='importable synthetic module with interfaces IA, IB(IA), IC, ID(IC), classes K0, K1(K0), K2(K0), instances a=K1(), b=K2(); '
-                   'every history of <=3 (thorough 4) declaration calls from 18 (classImplements/Only/First, directlyProvides/alsoProvides on '
+            bounds='importable synthetic module with interfaces IA, IB(IA), IC, ID(IC), classes K0, K1(K0), K2(K0), K3 (rejects attribute assignment like a builtin type), instances a=K1(), b=K2(); '
+                   'every history of <=3 (thorough 4) declaration calls from 20 (classImplements/Only/First, directlyProvides/alsoProvides on '
                    'classes and instances incl. a class specification as argument, noLongerProvides, clearing); after each history every '
                    'interface, class specification, class and instance provides-declaration and declared instance is round-tripped through '
                    'pickle protocols 0-5',
